@@ -307,16 +307,37 @@ pub fn run(case: &Case, ctx: &mut Ctx) -> CaseOutcome {
                 }
             }
         }
+        // the earlier tree has earlier text, and in a third of the warm-ups one source that fails:
+        // a run that fails may leave tasks behind (never on a tree whose Drop joins the pool);
+        // they are carried into the run under test (ctl.rs, stragglers)
+        let mut wrng = crate::rng::Rng::new(mix(&[case.seed, case.index, 4711]));
+        let srcs: Vec<String> = analyze(&v).sources.iter().map(|s| s.path.clone()).collect();
+        for sp in &srcs {
+            if let Some(d) = v.file(sp).cloned() {
+                let t = d.lossy().replace(" begins", " began in an earlier version");
+                v.set_file(sp, B(t.into_bytes()));
+            }
+        }
+        if !srcs.is_empty() && wrng.chance(1, 3) {
+            let sp = wrng.pick(&srcs).clone();
+            gen::inject_error(&mut wrng, &mut v, &sp);
+        }
         tree::plant(&env.root, &v);
         env.clear_run_vlog();
         let mut ws = sched.clone();
         ws.script = None;
         ws.strict = false;
+        crate::ctl::hold_stragglers(true);
         let warm = env.run(cfg, &ws, false);
+        crate::ctl::hold_stragglers(false);
         ctx.stats.count("config.warm_up_run_on_earlier_tree");
+        if !warm.verdict.is_ok() {
+            ctx.stats.count("config.warm_up_run_failed");
+        }
         if warm.poisoned {
             // a hang in the warm-up is a hang of txtpp all the same; C03 reports it below through
             // the main run's detectors only, so just replace the worker here
+            crate::ctl::drain_stragglers();
             out.poisoned = true;
             out.recorded = Some(case.clone());
             return out;
